@@ -9,6 +9,28 @@ from vlib import harness as H
 _template = {}
 
 
+class TemplateError(Exception):
+    """The standard store could not be built; .reqs are the request specs issued so far (the last
+    one is the request that did not do what the template needs), replayable on an empty store."""
+
+    def __init__(self, reqs, why):
+        Exception.__init__(self, why)
+        self.reqs = reqs
+
+
+class _Rec(object):
+    """Client wrapper that records every request it issues as a C13-style request spec."""
+
+    def __init__(self, client, log):
+        self._c = client
+        self._log = log
+
+    def one(self, item, **hdr):
+        self._log.append({"who": self._c.user, "v": list(hdr.get("v", self._c.v)),
+                          "items": [item]})
+        return self._c.one(item, **hdr)
+
+
 def standard_template():
     """Returns (db_path, index) where index maps 'Type/STATE' -> uid, plus 'bob', 'destroyed'.
     All objects are owned by alice except index['bob']; every object carries a name, one group
@@ -16,9 +38,20 @@ def standard_template():
     if "std" in _template:
         return _template["std"]
     start = H.CLOCK.now
+    log = []
+    try:
+        return _build(log, start)
+    except TemplateError:
+        raise
+    except Exception as e:
+        H.CLOCK.now = max(start, 1_700_000_000)
+        raise TemplateError(log, "%s: %s" % (type(e).__name__, str(e)[:300]))
+
+
+def _build(log, start):
     H.CLOCK.now = 1_600_000_000
     s = H.Server()
-    a = H.Client(s, "alice")
+    a = _Rec(H.Client(s, "alice"), log)
     idx = {}
     for t in H.OBJECT_TYPES:
         states = F.STATES if t in F.HAS_STATE else ["NONE"]
@@ -31,7 +64,7 @@ def standard_template():
             if st != "NONE":
                 F.put_state(a, uid, st)
             idx["%s/%s" % (t, st)] = uid
-    b = H.Client(s, "bob")
+    b = _Rec(H.Client(s, "bob"), log)
     r = b.one(F.create_item())
     idx["bob"] = r["payload"]["uid"]
     r = a.one(F.create_item())
